@@ -202,12 +202,16 @@ RecvBye(e, id) == Fresh(id) /\ Acts(In("Bye", id, <<>>, e, NoFlt))
 RecvProbe(f, id) == Fresh(id) /\ Acts(In("Probe", id, <<>>, "", f))
 RecvResolve(e, id) == Fresh(id) /\ Acts(In("Resolve", id, <<>>, e, NoFlt))
 
-AllIn == {In(k, id, as, "", NoFlt) : k \in AnnKinds, id \in MsgIds, as \in Anns1}
-         \cup {In("ProbeMatches", id, as, "", NoFlt) : id \in MsgIds, as \in Anns2}
-         \cup {In(k, id, <<>>, "", NoFlt) : k \in {"ProbeMatches", "ResolveMatches"}, id \in MsgIds}
-         \cup {In("Bye", id, <<>>, e, NoFlt) : id \in MsgIds, e \in Eprs}
-         \cup {In("Probe", id, <<>>, "", f) : id \in MsgIds, f \in Filters}
-         \cup {In("Resolve", id, <<>>, e, NoFlt) : id \in MsgIds, e \in LocalEprs \cup {UnknownEpr}}
+InWith(ids) ==
+         {In(k, id, as, "", NoFlt) : k \in AnnKinds, id \in ids, as \in Anns1}
+         \cup {In("ProbeMatches", id, as, "", NoFlt) : id \in ids, as \in Anns2}
+         \cup {In(k, id, <<>>, "", NoFlt) : k \in {"ProbeMatches", "ResolveMatches"}, id \in ids}
+         \cup {In("Bye", id, <<>>, e, NoFlt) : id \in ids, e \in Eprs}
+         \cup {In("Probe", id, <<>>, "", f) : id \in ids, f \in Filters}
+         \cup {In("Resolve", id, <<>>, e, NoFlt) : id \in ids, e \in LocalEprs \cup {UnknownEpr}}
+\* all messages of the environment / all of them with the id left open
+AllIn == InWith(MsgIds)
+Shapes == InWith({""})
 \* the content of a message that is not acted upon is irrelevant for the model; for the exhaustive check one
 \* message per kind and id is enough, for the emitted behaviours all of them are used
 OneOf(S) == IF S = {} THEN {} ELSE {CHOOSE x \in S : TRUE}
